@@ -291,6 +291,8 @@ def line(ctx):
             if r[0] == "call":
                 value_uses(r, uses)
             bad = [u for u in uses if u is None or last_seg(u) != "trim"]
+            if arm == "AcceptEncoding" and "common::headers::Encoding::try_from" in bad and encoding_trims_itself(facts):
+                bad = [u for u in bad if u != "common::headers::Encoding::try_from"]
             if arm != "Server":
                 ctx.ob("R15.2", "trim|%s|bb%d" % (arm, lf.trace[-2] if len(lf.trace) > 1 else lf.bb), not bad, "arm %s: the value is interpreted only through trim() (%d uses, untrimmed via %s)" % (arm, len(uses), bad), fn.loc(lf.bb))
     uses_total = 0
@@ -597,6 +599,61 @@ def block(ctx, rule):
     ctx.ob(rule, "block|returns-parsed-headers", ok_ret, "Ok carries the Headers the lines were parsed into (starting from default)", fn.loc(0))
 
 
+def _is_text(t):
+    """The argument of Encoding::try_from decoded: the Ok payload of from_utf8(arg1)."""
+    src = payload_of(look(t)) if isinstance(t, tuple) and t else None
+    return src is not None and is_call(src, "from_utf8") and look(src[2][0]) == ("arg", 1)
+
+
+def _text_uses(term, acc, parent=None):
+    if not isinstance(term, tuple) or not term:
+        return
+    if _is_text(term):
+        acc.append(parent)
+        return
+    if term[0] == "call":
+        for a in term[2]:
+            _text_uses(a, acc, term[1])
+        return
+    if term[0] in ("ref", "deref"):
+        _text_uses(term[1], acc, parent)
+        return
+    for x in term[1:]:
+        if isinstance(x, tuple) and x and isinstance(x[0], str):
+            _text_uses(x, acc, parent)
+        elif isinstance(x, tuple):
+            for y in x:
+                if isinstance(y, tuple):
+                    _text_uses(y, acc, parent)
+
+
+def encoding_trims_itself(facts):
+    """Encoding::try_from may be handed the untrimmed value when it does the caller's part itself: the decoded
+    text is looked at only through trim(), and the trimmed text is tested for emptiness with the empty case
+    rejected (the test on the raw bytes is not that test: blanks are not empty)."""
+    fn = facts.fn("common::headers::Encoding::try_from")
+    only_trimmed = True
+    empty_rejected = False
+    n = 0
+    for lf in PathEnum(fn, facts).run():
+        for (t, c, _bb) in lf.conds:
+            uses = []
+            _text_uses(t, uses)
+            n += len(uses)
+            if any(u is None or last_seg(u) != "trim" for u in uses):
+                only_trimmed = False
+            tv = truth(c)
+            x = t
+            while x[0] == "un" and x[1] == "Not":
+                x = look(x[2])
+                tv = None if tv is None else not tv
+            if is_call(x, "is_empty") and is_call(look(x[2][0]), "trim") and _is_text(look(x[2][0])[2][0]) and tv is True:
+                r = lf.ret() if lf.kind == "return" else None
+                if r is not None and r[0] == "agg" and r[2] == "Err":
+                    empty_rejected = True
+    return only_trimmed and empty_rejected and n > 0
+
+
 def encoding(ctx):
     facts = ctx.facts
     fn = facts.fn("common::headers::Encoding::try_from")
@@ -614,7 +671,7 @@ def encoding(ctx):
                     return True
             return False
 
-        empty = cond(lambda t: is_call(t, "is_empty") and look(t[2][0]) == ("arg", 1), True)
+        empty = cond(lambda t: is_call(t, "is_empty") and (look(t[2][0]) == ("arg", 1) or (is_call(look(t[2][0]), "trim") and _is_text(look(t[2][0])[2][0]))), True)
         r = lf.ret()
         isok = lf.kind == "return" and r[0] == "agg" and r[2] == "Ok"
         iserr = lf.kind == "return" and r[0] == "agg" and r[2] == "Err"
